@@ -184,7 +184,7 @@ func main() {
 			return nil
 		})
 	} else {
-		filters := []string{"arch", "apt", "abi3", "debian whonix", "apparmor4.1", "fedora"}
+		filters := []string{"arch", "apt", "abi3", "debian whonix", "apparmor4.1", "apparmor4.0 apparmor3.0"} // (an unknown filter name is in the crowded wrapper: zzz)
 		syms := []string{"R/a r,", "R/b w,", "R/c rw,", ""}
 		for _, k := range []string{"only", "exclude"} {
 			for _, f := range filters {
